@@ -4,6 +4,7 @@ import (
 	"fmt"
 	"go/constant"
 	"go/types"
+	"sort"
 	"strings"
 
 	"golang.org/x/tools/go/ssa"
@@ -635,6 +636,8 @@ func (ev *SpecEval) call(x *SCall) (TV, error) {
 		return TV{T: "(i2f " + args[0].T + ")", Typ: types.Typ[types.Float64]}, nil
 	case "fdiv", "fadd", "fsub", "fmul":
 		return TV{T: "(f_" + id.Name[1:] + " " + args[0].T + " " + args[1].T + ")", Typ: types.Typ[types.Float64]}, nil
+	case "rune2str":
+		return TV{T: "(rune2str " + args[0].T + ")", Typ: tStr}, nil
 	case "symhash":
 		return TV{T: "(symhash " + args[0].T + ")", Typ: tInt}, nil
 	case "strlen":
@@ -648,6 +651,33 @@ func (ev *SpecEval) call(x *SCall) (TV, error) {
 	if sf := c.sp.SpecFuns[id.Name]; sf != nil {
 		if len(sf.Params) != len(args) {
 			return TV{}, fmt.Errorf("spec fun %s expects %d args", sf.Name, len(sf.Params))
+		}
+		if sf.Macro {
+			if sf.Body == nil {
+				return TV{}, fmt.Errorf("spec macro %s has no body", sf.Name)
+			}
+			sub := *ev
+			sub.bound = map[string]TV{}
+			sub.vars = map[string]TV{}
+			sub.fr = nil
+			sub.pkg = sf.Pkg
+			for i, p := range sf.Params {
+				t, err := c.w.LookupType(p.Type, sf.Pkg)
+				if err != nil {
+					return TV{}, err
+				}
+				a := args[i]
+				a.Typ = t
+				sub.bound[p.Name] = a
+			}
+			r, err := sub.eval(sf.Body)
+			if err != nil {
+				return TV{}, fmt.Errorf("macro %s: %v", sf.Name, err)
+			}
+			if rt, err := c.w.LookupType(sf.Result, sf.Pkg); err == nil {
+				r.Typ = rt
+			}
+			return r, nil
 		}
 		c.usedSpecFuns[sf.Name] = true
 		rt, err := c.w.LookupType(sf.Result, sf.Pkg)
@@ -768,7 +798,7 @@ func (c *Ctx) specFunDecls() string {
 	// uninterpreted first, then defined (definitions may reference others)
 	for _, n := range names {
 		sf := c.sp.SpecFuns[n]
-		if sf.Body != nil {
+		if sf.Body != nil || sf.Macro {
 			continue
 		}
 		var ps []string
@@ -794,45 +824,93 @@ func (c *Ctx) specFunDecls() string {
 // emitAxioms evaluates the package axioms in the entry state (they may only mention
 // immutable spec-level functions and globals) and asserts them.
 func (c *Ctx) emitAxioms(st *State) {
-	// defined spec funs: declared first (so definitions may refer to each other), then their
-	// definitional axioms
-	type pend struct {
-		sf *SpecFun
-	}
-	var pending []*SpecFun
+	// defined spec funs: non-recursive ones become define-fun (in dependency order); recursive ones are
+	// declared and given a quantified definitional axiom
+	defined := map[string]*SpecFun{}
 	for _, n := range sortedKeys(c.sp.SpecFuns) {
-		sf := c.sp.SpecFuns[n]
-		if sf.Body == nil {
-			continue
+		if sf := c.sp.SpecFuns[n]; sf.Body != nil && !sf.Macro {
+			defined[n] = sf
 		}
-		var ps []string
-		okAll := true
+	}
+	deps := map[string][]string{}
+	for n, sf := range defined {
+		for m := range defined {
+			if strings.Contains(sf.BodyTxt, m+"(") {
+				deps[n] = append(deps[n], m)
+			}
+		}
+	}
+	recursive := map[string]bool{}
+	var order []string
+	state := map[string]int{}
+	var visit func(n string)
+	visit = func(n string) {
+		if state[n] == 2 {
+			return
+		}
+		if state[n] == 1 {
+			recursive[n] = true
+			return
+		}
+		state[n] = 1
+		ds := deps[n]
+		sort.Strings(ds)
+		for _, d := range ds {
+			if d == n {
+				recursive[n] = true
+				continue
+			}
+			visit(d)
+		}
+		state[n] = 2
+		order = append(order, n)
+	}
+	for _, n := range sortedKeys(defined) {
+		visit(n)
+	}
+	sig := func(sf *SpecFun) (ps []string, rt string, ok bool) {
 		for _, p := range sf.Params {
 			t, err := c.w.LookupType(p.Type, sf.Pkg)
 			if err != nil {
-				okAll = false
-				break
+				return nil, "", false
 			}
 			ps = append(ps, c.sorts.Of(t))
 		}
-		rt, err := c.w.LookupType(sf.Result, sf.Pkg)
-		if err != nil || !okAll {
-			c.unsupportedf("spec fun %s: bad types", n)
+		t, err := c.w.LookupType(sf.Result, sf.Pkg)
+		if err != nil {
+			return nil, "", false
+		}
+		return ps, c.sorts.Of(t), true
+	}
+	// recursive ones (and anything depending on a cycle) are declared up front
+	for _, n := range order {
+		if recursive[n] {
+			sf := defined[n]
+			ps, rt, ok := sig(sf)
+			if !ok {
+				c.unsupportedf("spec fun %s: bad types", n)
+				continue
+			}
+			c.lines = append(c.lines, fmt.Sprintf("(declare-fun %s (%s) %s)", n, strings.Join(ps, " "), rt))
+		}
+	}
+	for _, n := range order {
+		sf := defined[n]
+		ps, rt, ok := sig(sf)
+		if !ok {
+			if !recursive[n] {
+				c.unsupportedf("spec fun %s: bad types", n)
+			}
 			continue
 		}
-		c.lines = append(c.lines, fmt.Sprintf("(declare-fun %s (%s) %s)", n, strings.Join(ps, " "), c.sorts.Of(rt)))
-		pending = append(pending, sf)
-	}
-	for _, sf := range pending {
-		n := sf.Name
 		ev := c.newSpecEval(nil, st, st)
 		ev.pkg = sf.Pkg
 		var decls, args []string
-		for _, p := range sf.Params {
+		for i, p := range sf.Params {
 			t, _ := c.w.LookupType(p.Type, sf.Pkg)
 			q := c.fresh("a_" + p.Name)
 			ev.bound[p.Name] = TV{T: q, Typ: t}
-			decls = append(decls, fmt.Sprintf("(%s %s)", q, c.sorts.Of(t)))
+			decls = append(decls, fmt.Sprintf("(%s %s)", q, ps[i]))
 			args = append(args, q)
 		}
 		c.specDepth++
@@ -844,6 +922,10 @@ func (c *Ctx) emitAxioms(st *State) {
 		c.specDepth--
 		if err != nil || bad != "" {
 			c.unsupportedf("spec fun %s: %v %s", n, err, bad)
+			continue
+		}
+		if !recursive[n] {
+			c.lines = append(c.lines, fmt.Sprintf("(define-fun %s (%s) %s %s)", n, strings.Join(decls, " "), rt, body.T))
 			continue
 		}
 		if len(args) == 0 {
